@@ -30,6 +30,11 @@ FAMILIES = {
     "c08-3axis-int": dict(n_axes=3, layout="intermediate", n_glyphs=2, mapped=0.0, instances=2, post=lambda m, r: M.hostile_axes(m, r)),
     "c17-special-static": dict(n_axes=0, n_glyphs=14, composites=0.5, nested=True, transforms="scale", unicodes="multi", post=lambda m, r: M.summary_special(m, r)),
     "c17-special-var": dict(n_axes=1, layout="onaxis", n_glyphs=12, composites=0.5, nested=True, transforms="rotate", vertical=True, post=lambda m, r: M.summary_special(m, r)),
+    "c12-nested-scale": dict(n_axes=1, layout="onaxis", n_glyphs=12, composites=0.6, nested=True, transforms="scale", curves="quad"),
+    "c12-nested-rotate": dict(n_axes=2, layout="onaxis", n_glyphs=10, composites=0.6, nested=True, transforms="rotate", mixed_glyphs=0.3),
+    "c12-nonexport-sparse": dict(n_axes=1, layout="intermediate", n_glyphs=12, composites=0.6, nested=True, transforms="scale", non_export=3, sparse_glyphs=0.4, sparse_layers=1),
+    "c12-mixed-static": dict(n_axes=0, n_glyphs=12, composites=0.6, nested=True, transforms="scale", mixed_glyphs=0.5),
+    "c12-overflow": dict(n_axes=1, layout="onaxis", n_glyphs=10, composites=0.6, nested=True, transforms="overflow"),
     "kern-static": dict(n_axes=0, n_glyphs=12, composites=0.0, kern=dict(pairs=25)),
     "kern-var1": dict(n_axes=1, layout="onaxis", n_glyphs=14, composites=0.0, kern=dict(pairs=30, partial=0.3)),
     "kern-divergent": dict(n_axes=2, layout="corners", n_glyphs=16, composites=0.0, kern=dict(pairs=40, divergent=0.8, partial=0.2)),
@@ -46,6 +51,7 @@ BY_PROPERTY = {
     "C06": ["c06-partial-notdef-mid", "c06-none-notdef-last", "c06-full-notdef-first", "c06-full-nonotdef", "c06-prodnames", "c06-mixed", "static-noorder", "var1-nonexport", "var2-partialorder"],
     "C08": ["c08-1axis", "c08-2axis", "c08-3axis-int", "c08-1axis"],
     "C17": ["c17-special-static", "c17-special-var", "var2-nested-xform", "c17-special-static", "var1-vertical", "c06-partial-notdef-mid", "kern-static"],
+    "C12": ["c12-nested-scale", "c12-nested-rotate", "c12-nonexport-sparse", "c12-mixed-static", "c12-overflow", "var2-nested-xform"],
     "C14": ["var1-noorder", "var2-mixed-sparse", "var1-mixedglyphs", "kern-var1", "kern-intermediate", "kern-divergent"],
 }
 
